@@ -161,7 +161,7 @@ def run(ctx, rep):
         rep.require(not msgs, "note", "parse_at:%s" % variant, w, "name/desc slices, padding idiom and typed dispatch as specified", "Note::parse_at (%s): %s" % (variant, "; ".join(msgs)))
     rep.require(align_err, "note", "align-zero:present", w, "align == 0 is rejected", "Note::parse_at has no UnexpectedAlignment outcome for align == 0")
     rep.require(kinds == {"Unknown", "GnuBuildId", "GnuAbiTag"}, "note", "variants", w, "all three variants produced", "variants produced: %s" % sorted(kinds))
-    rep.floor("note", "success paths of Note::parse_at", n_ok, 12)
+    rep.floor("note", "success paths of Note::parse_at", n_ok, 3)   # one per variant; the padding may or may not branch
     # header parse call
     hc = [c for c in an.calls() if c.callee_qual == "<note::NoteHeader as parse::ParseAt>::parse_at"]
     good = len(hc) == 1 and hc[0].args[0] is T.param(1) and norm(hc[0].args[1]) == ELF32 and hc[0].arg_lvs[2] == p4lv and hc[0].args[3] is T.param(5)
